@@ -342,7 +342,11 @@ def run(rep, tier):
     for fn in [f for f in tqs if f.qname.endswith("::add_new")]:
         sch = [(b, i, ev) for b, i, ev in fn.all_events() if ev.get("k") == "call" and callee_short(ev) == "schedule_thread"]
         incm = lambda e: inc_of(e, "this->thread_map_count_", "++")
-        decn = lambda e: inc_of(e, "addfrom->new_tasks_count_.data_", "--")
+        # the source queue is the function's queue-pointer parameter, whatever it is called
+        src = [q["name"] for q in fn.params if "thread_queue" in (q.get("type") or "") and "*" in (q.get("type") or "")]
+        if len(src) != 1:
+            raise AnalysisBroken("add_new: source-queue parameter not found (%s)" % [q.get("type") for q in fn.params])
+        decn = lambda e, src=src[0]: inc_of(e, src + "->new_tasks_count_.data_", "--")
         loop_reset = lambda e: e.get("k") == "call" and callee_short(e) == "pop" and "new_tasks_" in P(e.get("recv"))
         if len(sch) == 1:
             b, i, ev = sch[0]
